@@ -13,7 +13,7 @@ TECHNIQUE = "Hypothesis-generated quadtree grids (single resolution, catalog-ref
 RULE = ("one case = grid (single resolution zoom 1..6; from_catalog over clustered/uniform/on-boundary epicentres x threshold 1..50 x max zoom "
         "2..8; random prefix-free pruned key set; California zoom-12 grid) probed at every (or a sample of) tile corner, centre, +-1 ulp of each "
         "bound, the antimeridian (-180, 180, largest double below 180), the Mercator latitude limits and neighbours, points outside partial "
-        "grids. Checked: bounds vs. own formula, containment count exactly 1 inside [-180,180)x(-phi,phi) for global grids, get_index_of "
+        "grids; array lookups also as lists, read-only arrays and sorted by longitude / latitude. Checked: bounds vs. own formula, containment count exactly 1 inside [-180,180)x(-phi,phi) for global grids, get_index_of "
         "returns the west/south-inclusive tile or nothing, refinement predicate, sum of cell areas = band area, get_bbox. Non-trivial = "
         "multi-resolution grid probed at a corner shared by tiles of different zoom; distinct = canonical JSON.")
 ASSUMPTIONS = ["tile bounds: lon = 360*x/2^z - 180 (exact), lat = degrees(atan(sinh(pi*(1-2y/2^z)))) (own implementation; agrees bit-for-bit with the library's dependency on all tiles tried)",
